@@ -190,6 +190,26 @@ func strEq(x, y value) value {
 				panic(needFlatten{"number tokens not aligned"})
 			}
 			cs = append(cs, Eq(sa.T, sb.T))
+		case (sa.K == SegNum || sa.K == SegInt) && sb.K == SegByte:
+			c, adv, ok := tokVsBytes(a, i, b, j)
+			if !ok {
+				panic(needFlatten{"token compared with bytes"})
+			}
+			if c.IsConst() && c.U == 0 {
+				return false
+			}
+			cs = append(cs, c)
+			j += adv - 1
+		case (sb.K == SegNum || sb.K == SegInt) && sa.K == SegByte:
+			c, adv, ok := tokVsBytes(b, j, a, i)
+			if !ok {
+				panic(needFlatten{"token compared with bytes"})
+			}
+			if c.IsConst() && c.U == 0 {
+				return false
+			}
+			cs = append(cs, c)
+			i += adv - 1
 		default:
 			panic(needFlatten{"token compared with bytes"})
 		}
@@ -471,4 +491,55 @@ func digestVsConcrete(d Seg, other []Seg) value {
 		return false
 	}
 	return strEq(*d.Pre, pre.(string))
+}
+
+// tokVsBytes compares the number token ts[ti] with the concrete bytes of bs
+// starting at bj. The token's extent on the byte side is delimited by the
+// token's terminator (end of string, or the constant non-number byte that
+// follows the token); the bytes must be constants. It returns the equality
+// condition, the number of byte segments consumed, and ok=false when the
+// comparison cannot be decided without concretising the token.
+func tokVsBytes(ts []Seg, ti int, bs []Seg, bj int) (*Term, int, bool) {
+	term, atEnd, ok := tokTerminated(ts, ti)
+	if !ok {
+		return nil, 0, false
+	}
+	k := bj
+	for k < len(bs) {
+		sg := bs[k]
+		if sg.K != SegByte || !sg.T.IsConst() {
+			return nil, 0, false
+		}
+		c := byte(sg.T.U)
+		if !atEnd && c == term {
+			// '-' terminates only where it cannot belong to the number text
+			if c != '-' || (k > bj && byte(bs[k-1].T.U) != 'e' && byte(bs[k-1].T.U) != 'E') {
+				break
+			}
+		}
+		k++
+	}
+	if atEnd && k != len(bs) {
+		return nil, 0, false
+	}
+	text := make([]byte, 0, k-bj)
+	for _, sg := range bs[bj:k] {
+		text = append(text, byte(sg.T.U))
+	}
+	if len(text) == 0 {
+		return FalseT, 1, true // a number text is never empty
+	}
+	tok := ts[ti]
+	if tok.K == SegInt {
+		n, err := strconv.ParseInt(string(text), 10, 64)
+		if err != nil || strconv.FormatInt(n, 10) != string(text) {
+			return FalseT, len(text), true
+		}
+		return Eq(tok.T, BvConst(uint64(n), 64)), len(text), true
+	}
+	f, err := strconv.ParseFloat(string(text), 64)
+	if err != nil || fmtFloatG(f) != string(text) {
+		return FalseT, len(text), true // not the %v text of any float64
+	}
+	return Eq(tok.T, F64Const(f)), len(text), true
 }
